@@ -163,14 +163,72 @@ def run(tier="quick", seed=0):
                 viol.append({"id": "seq_%d_%d" % (L, ev), "clause": "history", "inputs": {"length": L, "ops": [list(o) for o in seq]}, "why": why})
             if len(samples) < 2 and L == 2:
                 samples.append({"length": L, "ops": [list(o) for o in seq]})
-    # seek from the end: a file goes to length + n (known finding D7c)
-    mc = FakeMC(64)
-    m = MemoryIO(mc, 0, 0, BASE, BASE + 3)
-    m.seek(-1, 2)
-    ev += 1
-    if m.tell() != 2:
-        viol.append({"id": "seek_end", "clause": "seek_from_end", "inputs": {"n_bytes": -1, "from_what": 2}, "got": m.tell(), "want": 2})
+    # seek from the end, on the allocation and on views cut from it (also views of views): a file goes to length + n.
+    # Known finding D7c is exactly "the position becomes (length of THIS view) - n"; that outcome is reported under clause
+    # seek_from_end (known), any other position under seek_from_end_elsewhere (not known), and the transfer that follows is
+    # checked against the file model placed at the observed position
+    known_seen = other_seen = 0
+    for L in range(0, 6):
+        cuts = [()] + [((a, b),) for a in (None, 1, 2, -2) for b in (None, -1, L - 1)] \
+            + [((a, b), (c, d)) for a in (1,) for b in (None, -1) for c in (None, 1) for d in (None, -1)]
+        for chain in cuts:
+            for k in range(-L - 2, L + 3):
+                for then in ("tell", "read", "write"):
+                    mc = FakeMC(64)
+                    cur = MemoryIO(mc, 1, 2, BASE, BASE + L)
+                    model = FileModel(bytearray(mc.mem), BASE, BASE + L)
+                    for a, b in chain:
+                        lo, hi, _ = slice(a, b).indices(model.hi - model.lo)
+                        hi = max(lo, hi)
+                        cur = cur[a:b]
+                        model = FileModel(model.buf, model.lo + lo, model.lo + hi)
+                    Lv = model.hi - model.lo
+                    ev += 1
+                    distinct.add(("seek_end", L, chain, k, then))
+                    inputs = {"length": L, "slices": [list(c) for c in chain], "n_bytes": k, "from_what": 2, "then": then}
+                    try:
+                        cur.seek(k, 2)
+                        got = cur.tell()
+                    except Exception as e:      # noqa
+                        viol.append({"id": "seek_end_exc_%d" % ev, "clause": "seek_from_end_elsewhere", "inputs": inputs,
+                                     "why": "seek(%d, 2) raised %s" % (k, type(e).__name__)})
+                        continue
+                    if got != Lv + k:
+                        if got == Lv - k:
+                            known_seen += 1
+                            if known_seen == 1:
+                                viol.append({"id": "seek_end", "clause": "seek_from_end",
+                                             "inputs": dict(inputs, observed_is_length_minus_n=True), "got": got, "want": Lv + k})
+                        else:
+                            other_seen += 1
+                            if other_seen <= 3:
+                                viol.append({"id": "seek_end_other_%d" % ev, "clause": "seek_from_end_elsewhere", "inputs": inputs,
+                                             "why": "view of length %d: seek(%d, 2) went to %d; a file goes to %d (finding D7c: %d)"
+                                                    % (Lv, k, got, Lv + k, Lv - k)})
+                    model.pos = got
+                    before = len(mc.log)
+                    with warnings.catch_warnings():
+                        warnings.simplefilter("ignore")
+                        if then == "read":
+                            r = cur.read(1)
+                            n = model.n(1)
+                            exp = bytes(model.buf[model.lo + model.pos: model.lo + model.pos + n]) if n else b""
+                            bad = r != exp
+                        elif then == "write":
+                            r = cur.write(b"\xee")
+                            n = model.n(1)
+                            model.buf[model.lo + model.pos: model.lo + model.pos + n] = b"\xee"[:n]
+                            bad = r != n or bytes(mc.mem) != bytes(model.buf)
+                        else:
+                            bad = False
+                    for kind, a_, n_ in [x for x in mc.log[before:] if x[0] in "rw"]:
+                        if not (model.lo <= a_ and a_ + n_ <= model.hi and n_ >= 1):
+                            bad = True
+                    if bad and other_seen <= 3:
+                        viol.append({"id": "seek_end_then_%d" % ev, "clause": "seek_from_end_then_transfer", "inputs": inputs,
+                                     "why": "%s after seek(%d, 2) on a view of length %d does not match the file model at the observed position %d"
+                                            % (then, k, Lv, got)})
     return {"name": "c13_views", "evaluations": ev, "distinct_nontrivial": len(distinct),
-            "rule": "operation sequences of length %d over views of length 0..%d (seek whence 0/1 with offsets -2..L+2, read counts -1,0,1,L,L+2, writes of 0,1,L,L+2 bytes, 12 slicings, close, free, tell) on a real MemoryIO over a recording controller, against a fixed-length file model; exhaustive where the product is <= 40000 sequences, else seeded sample; non-trivial: contains a read, write or slice" % (depth, maxlen),
+            "rule": "operation sequences of length %d over views of length 0..%d (seek whence 0/1 with offsets -2..L+2, read counts -1,0,1,L,L+2, writes of 0,1,L,L+2 bytes, 12 slicings, close, free, tell) on a real MemoryIO over a recording controller, against a fixed-length file model; exhaustive where the product is <= 40000 sequences, else seeded sample; non-trivial: contains a read, write or slice; plus seek(n, 2) for n in -L-2..L+2 on allocations of length 0..5 and on 13 single and 8 double slicings of them, followed by tell/read/write (a position of length - n is finding D7c, any other position a violation)" % (depth, maxlen),
             "bound": "sequence length %d, view length <= %d" % (depth, maxlen), "exhaustive": False, "label": "bounded",
             "samples": samples, "violations": viol, "seconds": round(time.time() - t0, 2)}
